@@ -171,6 +171,20 @@ func propRegistry() map[string]PropSpec {
 	})
 
 	add(PropSpec{
+		ID: "C18",
+		Harnesses: []HarnessSpec{
+			{Pkg: "cache", Fn: "Harness_C18_purge", Init: initCache, Reach: []string{"C18.named", "C18.unnamed", "C18.absent-cache", "C18.absent-key"}},
+			{Pkg: "cache", Fn: "Harness_C18_others_untouched", Init: initCache, Reach: []string{"C18.others.end"}, EngineOnly: true},
+			{Pkg: "cache", Fn: "Harness_C08_dispatcher_wiring", Init: initCache, Reach: []string{"C08.wiring.end"}},
+			{Pkg: "cache", Fn: "Harness_C06_lookup", Init: initCache, Reach: []string{"C06.lookup.end"}, EngineOnly: true},
+		},
+		Explanation: "Sequential purge semantics on the real dispatchers/dispatcher/lru code with symbolic keys and an uninterpreted hash: after a named purge the next lookup yields a fresh entry whose Get() is fetching and the persisted copy is gone (also when the key is not resident, e.g. after a restart); an unnamed purge does so in every cache; purging an absent cache or key changes nothing; other keys keep their entries. The purge-racing-a-fetch clause is decided by the BMC system.",
+		Assumptions: []string{"faithful store (C08) or no store", "keys <= 2 bytes, two caches; hash uninterpreted", "sequential histories here; interleavings under BMC"},
+		Encoded:     []string{"cache.(*dispatchers).RemoveHTTPCache", "cache.(*dispatcher).RemoveHTTPCache", "cache.(*httpLRUCache).removeCache", "cache.(*dispatchers).Get", "cache.NewDispatchers"},
+		Bounds:      map[string]string{"history": "populate, one purge of each kind, re-lookup", "keys": "<=2 bytes symbolic"},
+	})
+
+	add(PropSpec{
 		ID: "C11",
 		Harnesses: []HarnessSpec{
 			{Pkg: "cache", Fn: "Harness_C11_arith", Init: initCache, Reach: []string{"C11.arith.end"}},
